@@ -12,3 +12,16 @@ pub use self::raw::Input;
 pub use self::raw::Player;
 pub use self::raw::PlayerChange;
 pub use self::raw::Pos;
+
+/// Verification hook (only with `--cfg libtw2_verif`): expose the incremental
+/// reader so that a test driver can supply the read callback.
+#[cfg(libtw2_verif)]
+pub mod verif {
+    pub use crate::raw::Buffer;
+    pub use crate::raw::Callback;
+    pub use crate::raw::Error;
+    pub use crate::raw::Item;
+    pub use crate::raw::Reader;
+    pub use crate::raw::ResultExt;
+    pub use crate::raw::WrapCallbackError;
+}
